@@ -12,9 +12,15 @@ import buildcorr
 import vlib
 
 WORDS = ["foo", "bar", "Baz", "x1", "y z", "42", "äö", "日本", "𝒳", "a b c", "q"]
-TAGS = ["span", "div", "b", "small", "ref", "code", "center", "s", "DIV", "Span", "Ref", "SUP", "bLoCkQuOtE"]
-UNPARSED = ["nowiki", "pre", "math", "source", "NoWiki", "PRE"]
-SINGLE = ["br", "hr", "wbr", "BR", "Hr"]
+def _all_schemes():
+    from mwparserfromhell import definitions as d
+    return [k + ("://" if v else ":") for k, v in sorted(d.URI_SCHEMES.items())]
+
+
+ALL_SCHEMES = _all_schemes()          # every scheme of the definition table, in the form that needs no further slashes
+TAGS = ["span", "div", "b", "small", "ref", "code", "center", "s", "DIV", "Span", "Ref", "SUP", "bLoCkQuOtE", "tr", "td", "th", "li", "dd", "dt", "p", "poem"]
+UNPARSED = ["nowiki", "pre", "math", "source", "NoWiki", "PRE", "timeline", "gallery", "section", "hiero", "syntaxhighlight", "score", "categorytree", "ce", "chem", "graph", "imagemap", "inputbox", "templatedata"]
+SINGLE = ["br", "hr", "wbr", "BR", "Hr", "img", "link", "meta", "Img"]
 ENTS = [("amp", True, False, "x"), ("nbsp", True, False, "x"), ("Sigma", True, False, "x"), ("sup2", True, False, "x"), ("frac12", True, False, "x"),
         ("there4", True, False, "x"), ("thetasym", True, False, "x"), ("1114111", False, False, "x"), ("10FFFF", False, True, "x"), ("00065", False, False, "x"), ("107", False, False, "x"),
         ("1F", False, True, "x"), ("e9", False, True, "X")]
@@ -52,11 +58,18 @@ class Gen:
     def word(self):
         return self.rng.choice(WORDS)
 
-    def namey(self, words):
+    def namey(self, words, tpl=False):
         """the nodes of a name / key / title: a word, or 2-3 adjacent pieces among words, templates and arguments
-        (markup in names is well formed; two templates may touch)"""
-        from mwparserfromhell.nodes import Argument, Template
+        (markup in names is well formed; two templates may touch); a template's name may also be just a nested template
+        or argument with white space / a comment around it"""
+        from mwparserfromhell.nodes import Argument, Comment, Template
         rng = self.rng
+        if tpl and rng.random() < 0.12:
+            self.kinds.add("nested template as a whole name")
+            inner = Template(W([T(rng.choice(["n", "m m"]))]), []) if rng.random() < 0.7 else Argument(W([T("1")]))
+            pre, post = rng.choice([(" ", " "), ("\n", "\n"), (" ", ""), ("", " "), ("", "\n")])
+            out = ([T(pre)] if pre else []) + ([Comment(" c ")] if rng.random() < 0.2 else []) + [inner] + ([T(post)] if post else [])
+            return out
         if rng.random() < 0.6:
             return [T(rng.choice(words))]
         self.kinds.add("markup in a name")
@@ -111,7 +124,7 @@ class Gen:
                     pos += 1
                 else:
                     params.append(Parameter(W(self.namey(["k", "key ", " n1", "2x"])), W(self.inline(depth - 1, nolinks)), showkey=True))
-            return Template(W(self.namey(["t", "tpl ", "Cite web", "a_b"])), params)
+            return Template(W(self.namey(["t", "tpl ", "Cite web", "a_b"], tpl=True)), params)
         if c < 0.42:
             self.kinds.add("argument")
             if rng.random() < 0.5:
@@ -124,7 +137,7 @@ class Gen:
             return Wikilink(W(self.namey(["Page", "Cat:é"])))
         if c < 0.6 and not nolinks:
             self.kinds.add("external link")
-            url = W([T(rng.choice(["http://", "https://", "ftp://", "mailto:", "//"]) + rng.choice(["example.com", "a.b/c?d=e"]))])
+            url = W([T(rng.choice(["http://", "https://", "ftp://", "mailto:", "//"] + ALL_SCHEMES) + rng.choice(["example.com", "a.b/c?d=e"]))])
             r = rng.random()
             if r < 0.25 and not str(url).startswith("//"):
                 # a bare link: it starts after a non-word character and runs up to white space or to the closer / separator of
